@@ -117,6 +117,13 @@ func c07Judge(c *ev.Check, m c07Mode, hc c07Case, seg [][]byte) {
 		c.Violation("multiple-output-lines|"+hc.kind, fmt.Sprintf("one input line produced %d output lines (mode %s)", len(seg), m.name), c07Replay(m, hc, seg))
 		return
 	}
+	if len(seg) <= 1 && (hc.kind == "mutant" || hc.kind == "truncation") {
+		o := "(no output line)"
+		if len(seg) == 1 {
+			o = short(seg[0], 300)
+		}
+		c.Sample(map[string]any{"mode": m.name, "kind": hc.kind, "hostile_input": short(hc.raw, 300), "output_between_sentinels": o})
+	}
 	if len(seg) == 1 {
 		if _, err := jt.ParseObject(seg[0]); err != nil {
 			c.Violation("ill-formed-output|"+hc.kind, fmt.Sprintf("the output line of a hostile input is not one well-formed JSON object: %v (mode %s): %s", err, m.name, short(seg[0], 200)), c07Replay(m, hc, seg))
